@@ -133,6 +133,13 @@ def gen_case(rng):
         n, lags, leads = max(n, 4), 0, 0
     seqs, fault_at = period_outcomes(rng, n, lags, leads)
     vals = [[float(i + 1 + 10 * p) for p in range(n)] for i in range(nE)]
+    regime = rng.choice(['plain'] * 7 + ['float32', 'f32tiny', 'object'])
+    if regime == 'f32tiny':
+        # reduced-precision model, magnitudes well below 1, tolerance 1e-10: moves of 2**-26 are representable, are
+        # >= tol, and must therefore count as movement in solve() exactly as in solve_t()
+        vals = [[2.0 ** -7 * (1 + i + p) for p in range(n)] for i in range(nE)]
+        seqs = {p: [rng.choice(['tiny', 'tiny', 'same']) for _ in range(rng.randint(0, 4))] + ['same'] for p in range(n)}
+        fault_at = None
     script = [sc.make_script(seqs.get(p, []), [vals[i][p] for i in range(nE)], nE) for p in range(n)]
     M = rng.choice([0, 1, 3, 5, 6])
     o = mkopts(rng.choice([0, 0, 1, 2, M]) if M else 0, M, rng.choice([0, 0, 0, -1, 1]),
@@ -140,13 +147,15 @@ def gen_case(rng):
     o['min_iter'] = min(o['min_iter'], M)
     if rng.random() < 0.04:
         o['min_iter'] = o['max_iter'] + 1
-    case = {'n': n, 'nE': nE, 'check': [0, 1], 'tol': bits(sc.TOL), 'script': script, 'before': [], 'after': [],
+    case = {'n': n, 'nE': nE, 'check': [0, 1], 'tol': bits(1e-10 if regime == 'f32tiny' else sc.TOL), 'script': script, 'before': [], 'after': [],
             'vals': [[bits(x) for x in row] for row in vals],
             'status': ''.join(rng.choice('-.F') for _ in range(n)) if rng.random() < 0.3 else '-' * n,
             'iters': [-1] * n, 'opts': o, 'lags': lags, 'leads': leads, 't': 0,
             'prov': rng.choice(sc.PROVENANCES), 'write': rng.choice(['inplace', 'inplace', 'rebind']),
             'argform': rng.choice(['plain', 'plain', 'numpy']), 'mix': rng.choice(sc.MIXES),
             'check_edit': rng.random() < 0.3, 'strict': rng.random() < 0.3}
+    if regime != 'plain':
+        case['dtype'] = 'float32' if regime in ('float32', 'f32tiny') else 'object'
     for acts in case['script']:
         for a in acts:
             if a.get('k') == 'raise':
